@@ -785,6 +785,7 @@ class Sim(object):
                     return
         if self.xr:
             self.info['xr_reader_used'] = 1
+            self.info['xr_mode_%s' % self.xr] = 1
             # the xr reader: \ref to a label of d<j> resolves to the data saved for it under THIS renderer
             for labattr, target, intree in res['refs'] or []:
                 if target is None or not isinstance(target.get('id'), str):
